@@ -37,6 +37,8 @@ pub struct LinkCfg {
     pub lat: Lat,
     /// bytes per second, 0 = unlimited
     pub bps: u64,
+    /// > 0: the rate is configured in bits per second through `Baud::bits_per_second`
+    pub bits: u64,
     /// frame lengths used for the unicast/broadcast sends (besides the MTU boundary cases)
     pub extra_len: Vec<usize>,
 }
@@ -233,7 +235,9 @@ impl Scenario for LinkSc {
                     Duration::from_millis(r),
                 )),
             };
-            if cfg.bps > 0 {
+            if cfg.bits > 0 {
+                b = b.throughput(Throughput::constant(Baud::bits_per_second(cfg.bits)));
+            } else if cfg.bps > 0 {
                 b = b.throughput(Throughput::constant(Baud::bytes_per_second(cfg.bps)));
             }
             nets.push(b.build());
@@ -438,14 +442,14 @@ impl Scenario for LinkSc {
                         format!("{what}: sent at {:?}, delivered at {:?}, latency {:?}", t.t, r.t, base_lat),
                     ));
                 }
-                if cfg.bps > 0 {
-                    let need = Duration::from_nanos(p.len.max(2) as u64 * 1_000_000_000 / cfg.bps) + base_lat;
+                if cfg.bps > 0 || cfg.bits > 0 {
+                    let need = tx_time(&cfg, p.len.max(2)) + base_lat;
                     if dt < need {
                         viols.push(Violation::new(
                             "timing",
                             "Network::send",
                             "delivered-faster-than-throughput",
-                            format!("{what}: took {:?}, {} bytes at {} B/s need {:?}", dt, p.len.max(2), cfg.bps, need),
+                            format!("{what}: took {:?}, {} bytes at {} need {:?}", dt, p.len.max(2), rate_text(&cfg), need),
                         ));
                     }
                 }
@@ -453,7 +457,7 @@ impl Scenario for LinkSc {
         }
         // medium serialisation: with a throughput, the total time for all frames on one network
         // is at least the sum of their transmission times
-        if cfg.bps > 0 {
+        if cfg.bps > 0 || cfg.bits > 0 {
             for n in 0..cfg.nets {
                 let mut arrivals: Vec<(Duration, usize)> = vec![];
                 let mut seen_ids = vec![];
@@ -469,7 +473,7 @@ impl Scenario for LinkSc {
                 arrivals.sort();
                 let mut total = Duration::ZERO;
                 for (i, (t, len)) in arrivals.iter().enumerate() {
-                    total += Duration::from_nanos(*len as u64 * 1_000_000_000 / cfg.bps);
+                    total += tx_time(&cfg, *len);
                     // the (i+1)-th frame cannot be through before the first i+1 transmissions
                     let earliest = total + base_lat;
                     if *t < earliest {
@@ -494,6 +498,24 @@ impl Scenario for LinkSc {
     }
 }
 
+/// The least time the configured rate allows for `len` bytes (rounded down to whole ns).
+fn tx_time(cfg: &LinkCfg, len: usize) -> Duration {
+    let ns = if cfg.bits > 0 {
+        len as u128 * 8 * 1_000_000_000 / cfg.bits as u128
+    } else {
+        len as u128 * 1_000_000_000 / cfg.bps as u128
+    };
+    Duration::from_nanos(ns as u64)
+}
+
+fn rate_text(cfg: &LinkCfg) -> String {
+    if cfg.bits > 0 {
+        format!("{} bit/s", cfg.bits)
+    } else {
+        format!("{} B/s", cfg.bps)
+    }
+}
+
 pub fn cfgs(tier: &str) -> Vec<(LinkCfg, Bounds)> {
     let q = tier == "quick";
     let mut v = vec![];
@@ -507,6 +529,7 @@ pub fn cfgs(tier: &str) -> Vec<(LinkCfg, Bounds)> {
                 mtu,
                 lat,
                 bps,
+                bits: 0,
                 extra_len: extra,
             },
             Bounds::new(d).wall(wall),
@@ -519,11 +542,22 @@ pub fn cfgs(tier: &str) -> Vec<(LinkCfg, Bounds)> {
     add("2 machines, 1 net, mtu 1500, 1000 B/s (whole ms)", vec![vec![0], vec![0]], 1, 1500, Lat::None, 1000, vec![10, 500], d);
     add("3 machines, 1 net, mtu 100, 100000 B/s (fractions of a ms)", vec![vec![0], vec![0], vec![0]], 1, 100, Lat::Const(7), 100_000, vec![50], 1);
     add("2 machines, 1 net, mtu 65535 (the default), no latency", vec![vec![0], vec![0]], 1, 65535, Lat::None, 0, vec![10], 1);
+    // rates given in bits per second: a multiple of 8, one that is not, one below 8
+    let bit_rates: Vec<u64> = if q { vec![8000, 12, 7] } else { vec![8000, 8001, 9, 12, 15, 7, 1] };
+    for r in bit_rates {
+        add(&format!("2 machines, 1 net, mtu 100, {r} bit/s"), vec![vec![0], vec![0]], 1, 100, Lat::None, 0, vec![3], 1);
+    }
     if !q {
         add("4 machines, 2 nets (two dual-homed), mtu 65535", vec![vec![0, 1], vec![1, 0], vec![0], vec![1]], 2, 65535, Lat::None, 0, vec![10], 1);
         add("2 machines, 1 net, mtu 65535, 100000 B/s", vec![vec![0], vec![0]], 1, 65535, Lat::Var(5, 3), 100_000, vec![100, 333], 2);
         add("4 machines, 1 net, mtu 1500, latency 5+3 ms", vec![vec![0], vec![0], vec![0], vec![0]], 1, 1500, Lat::Var(5, 3), 0, vec![10], 1);
         add("3 machines, 1 net, mtu 1500, 1000 B/s, latency 7 ms", vec![vec![0], vec![0], vec![0]], 1, 1500, Lat::Const(7), 1000, vec![7, 10], 1);
+    }
+    // the bit-rate configurations carry their rate in the name
+    for (c, _) in v.iter_mut() {
+        if let Some(r) = c.name.strip_suffix(" bit/s").and_then(|n| n.rsplit(' ').next()) {
+            c.bits = r.parse().unwrap();
+        }
     }
     v
 }
